@@ -637,6 +637,7 @@ __wrap_socket(int domain, int type, int proto)
 	}
 	s = vk_alloc();
 	s->cstate = 0;
+	s->from_socket = 1;
 	TR(0xA2, s->fd, 0, "socket() -> fd %d", s->fd);
 	return (s->fd);
 }
